@@ -4,6 +4,7 @@ package main
 import (
 	"context"
 	"fmt"
+	"os"
 	"sort"
 	"strings"
 	"time"
@@ -12,6 +13,7 @@ import (
 	"github.com/redis/go-redis/v9"
 
 	"verifh/ev"
+	"verifh/mc"
 	"verifh/seq"
 )
 
@@ -161,10 +163,10 @@ func errName(e error) string {
 }
 
 type setOpt struct {
-	name    string
-	ttl     int64 // 0: default
-	mne     bool
-	keep    bool
+	name string
+	ttl  int64 // 0: default
+	mne  bool
+	keep bool
 }
 
 func (o setOpt) fns() []cache.SetOptFn {
@@ -691,6 +693,12 @@ func main() {
 				f := &fakeRedis{data: map[string]*rent{}}
 				return &duo{mem: cache.NewTTLMemCache(1000, 3), rds: cache.NewTTLRdsCache(f, "p:", 3), fake: f}
 			}})
+	}
+	if r.Only == "" {
+		if nd := mc.DriveBin(r, os.Getenv("VERIF_SCHED_BIN")); nd != "" && r.NViolations() == 0 {
+			fmt.Println("engine-S companion failed (machinery error, not a verdict):", nd)
+			r.Finish0(2)
+		}
 	}
 	r.Finish()
 }
